@@ -10,6 +10,7 @@ Cmds == <<
   C("set", <<"@", "v">>),
   C("option", <<"@", "\"help\"", "ON">>),
   C("add_test", <<"NAME", "@", "COMMAND", "prog">>),
+  C("add_test", <<"@", "prog">>),           \* CMake's short form: no NAME keyword
   C("other", <<"hi", "there">>),
   Compound("other", <<"NOT", "OR", "C">>, <<"(AANDB)">>, <<"NOT", "(A AND B)", "OR", "C">>),
   C("generic_command", <<"x">>),
